@@ -41,6 +41,13 @@ RULE = (
     "layer / ratio > 1 on a non-uniform or embedded grid; distinct by inputs"
 )
 ASSUMPTIONS = [
+    "purity: refine_grid_1d, remesh_1d, refine_triangle_grid, structured_refinement and "
+    "extrude_grid must leave their argument grids bitwise unchanged (geometry computed "
+    "beforehand; extrude_grid documents that it recomputes the geometry of its argument, "
+    "so the five geometry fields are exempt there)",
+    "scale axis: node coordinates (and layer vectors) multiplied by s in {1e-4,1e-2,1e3}; "
+    "all tolerances are relative to the grid size, no absolute floor; structured_refinement "
+    "is not scaled (its absolute point-in-polygon tolerance is a documented parameter)",
     "'valid grid' = the C19 identities hold on the returned grid (positive volumes, "
     "closed cells, outward normals for convex cells, volume and centroid identities)",
     "refine_grid_1d returns no map: nesting is judged geometrically (each new cell lies "
@@ -63,6 +70,8 @@ TOL = 1e-12
 
 ROTZ = G._quat(2, 0, 0, 1)  # rotation about the z-axis, cos = 3/5, sin = 4/5
 EMB = [None, ["q1", "t1"], ["c7", "t2"]]
+# scale axis: third entry = factor applied to all node coordinates after the motion
+EMB_SCALED = [["id", "t0", 1e-4], ["q1", "t1", 1e-2], ["c7", "t0", 1e3]]
 
 
 def _quiet(f, *a, **k):
@@ -91,9 +100,25 @@ def _get_1d(src, tier="quick"):
 
 def _move(g, m):
     if m:
-        R, t = G.motion(m)
+        R, t = G.motion(m[:2])
         g.nodes = R @ g.nodes + t.reshape((3, 1))
+        if len(m) > 2:
+            g.nodes = float(m[2]) * g.nodes
     return g
+
+
+def _spec_with(spec, m):
+    if not m:
+        return dict(spec)
+    v = dict(spec, motion=m[:2])
+    if len(m) > 2:
+        v["scale"] = m[2]
+    return v
+
+
+def _size(g):
+    """Size of a grid for relative tolerances (no absolute floor)."""
+    return float(np.abs(g.nodes).max()) if g.num_nodes else 1.0
 
 
 TRI_LETTERS = ["T11", "T22", "T32", "D7", "E6", "M6"]
@@ -110,15 +135,15 @@ def cases(tier):
     one_d = _one_d_sources() + ([("base", "C4")] if tier == "thorough" else [])
     tri = TRI_LETTERS + (["T33"] if tier == "thorough" else [])
     for src in one_d:
-        for m in EMB:
+        for m in EMB + EMB_SCALED:
             out.append({"fam": "refine1d", "src": list(src), "motion": m, "ratios": ratios})
     for src in one_d:
         if src[0] == "frac" and src[1] == "F3":
             continue  # four tagged boundary nodes: outside remesh_1d's domain
-        for m in EMB:
+        for m in EMB + EMB_SCALED:
             out.append({"fam": "remesh", "src": list(src), "motion": m, "nn": nn})
     for name in tri:
-        for m in EMB[:2]:
+        for m in EMB[:2] + EMB_SCALED:
             out.append({"fam": "refinetri", "name": name, "motion": m})
     # structured refinement
     for n in (1, 2, 3):
@@ -135,14 +160,15 @@ def cases(tier):
         out.append({"fam": "structured", "pair": ["stet", n], "motion": None, "ks": [2]})
     # extrusion
     zs = Z_QUICK if tier == "quick" else Z_THOROUGH
-    out.append({"fam": "extrude", "src": ["point"], "rotz": False, "zs": zs})
-    for src in one_d:
-        for rz in (False, True):
-            out.append({"fam": "extrude", "src": ["1d"] + list(src), "rotz": rz, "zs": zs})
-    for name in EXTR_2D + (["C33", "T33"] if tier == "thorough" else []):
-        out.append({"fam": "extrude", "src": ["2d", name], "rotz": False, "zs": zs})
-    for f, d in EXTR_2D_FRAC:
-        out.append({"fam": "extrude", "src": ["2dfrac", f], "rotz": False, "zs": zs})
+    for sc in [None] + G.SCALES:
+        out.append({"fam": "extrude", "src": ["point"], "rotz": False, "zs": zs, "scale": sc})
+        for src in one_d:
+            for rz in (False, True):
+                out.append({"fam": "extrude", "src": ["1d"] + list(src), "rotz": rz, "zs": zs, "scale": sc})
+        for name in EXTR_2D + (["C33", "T33"] if tier == "thorough" else []):
+            out.append({"fam": "extrude", "src": ["2d", name], "rotz": False, "zs": zs, "scale": sc})
+        for f, d in EXTR_2D_FRAC:
+            out.append({"fam": "extrude", "src": ["2dfrac", f], "rotz": False, "zs": zs, "scale": sc})
     return out
 
 
@@ -224,14 +250,15 @@ def _run_refine1d(case, out):
         _quiet(g.compute_geometry)
         old_cells = _cells_1d(g)
         old_len = np.array([np.linalg.norm(g.nodes[:, j] - g.nodes[:, i]) for i, j in old_cells])
-        ext = max(1.0, float(np.abs(g.nodes).max()))
+        ext = _size(g)
         try:
-            h = _quiet(refinement.refine_grid_1d, g, ratio)
+            with G.Pure(out, "refine_grid_1d", [g], **detail) as pure:
+                h = _quiet(refinement.refine_grid_1d, g, ratio)
         except Exception as e:
             out.violate("refine_grid_1d raised", error=repr(e), **detail)
             out.ev("VIOLATION")
             continue
-        bad = None
+        bad = "argument grid mutated (reported above)" if pure.changed else None
         if h.dim != 1 or h.num_cells != ratio * g.num_cells:
             bad = f"expected {ratio * g.num_cells} cells of dimension 1, got {h.num_cells} (dim {h.dim})"
         ok = _valid(h, float(old_len.sum()), True, out, "refine_grid_1d", **detail)
@@ -259,7 +286,7 @@ def _run_refine1d(case, out):
             out.ev("VIOLATION")
         else:
             uniform = bool(np.allclose(old_len, old_len[0]))
-            out.ev(f"refine1d/{'emb' if case['motion'] else 'ref'}/{'uniform' if uniform else 'nonuniform'}/{case['src'][0]}", ("r1", label, str(case["motion"]), ratio) if (g.num_cells > 1 or case["motion"]) else None)
+            out.ev(f"refine1d/{'emb' if case['motion'] else 'ref'}/{'uniform' if uniform else 'nonuniform'}/{case['src'][0]}" + ("/scaled" if case["motion"] and len(case["motion"]) > 2 else ""), ("r1", label, str(case["motion"]), ratio) if (g.num_cells > 1 or case["motion"]) else None)
     if not out.samples:
         out.samples.append({"family": "refine1d", "src": case["src"], "motion": case["motion"], "ratios": case["ratios"]})
 
@@ -274,19 +301,22 @@ def _run_remesh(case, out):
         detail = {"grid": label, "motion": case["motion"], "num_nodes": n}
         old_cells = _cells_1d(g)
         total = float(sum(np.linalg.norm(g.nodes[:, j] - g.nodes[:, i]) for i, j in old_cells))
-        ext = max(1.0, float(np.abs(g.nodes).max()))
+        ext = _size(g)
         # end points of the old grid: the two nodes that belong to one cell only
         cnt = np.bincount(np.array(old_cells).ravel(), minlength=g.num_nodes)
         ends = g.nodes[:, np.where(cnt == 1)[0]]
         try:
-            h = _quiet(refinement.remesh_1d, g, n)
+            with G.Pure(out, "remesh_1d", [g], **detail) as pure:
+                h = _quiet(refinement.remesh_1d, g, n)
         except Exception as e:
             out.violate("remesh_1d raised", error=repr(e), **detail)
             out.ev("VIOLATION")
             continue
-        bad = None
+        bad = "argument grid mutated (reported above)" if pure.changed else None
         ok = _valid(h, total, True, out, "remesh_1d", **detail)
-        if h.dim != 1 or h.num_cells != n - 1 or h.num_nodes != n:
+        if bad:
+            pass
+        elif h.dim != 1 or h.num_cells != n - 1 or h.num_nodes != n:
             bad = f"expected {n} nodes / {n - 1} cells, got {h.num_nodes} / {h.num_cells}"
         elif ends.shape[1] == 2:
             a, b = ends[:, 0], ends[:, 1]
@@ -308,20 +338,19 @@ def _run_remesh(case, out):
             out.ev("VIOLATION")
         else:
             rel = "coarser" if n - 1 < g.num_cells else ("same" if n - 1 == g.num_cells else "finer")
-            out.ev(f"remesh/{'emb' if case['motion'] else 'ref'}/{rel}/{case['src'][0]}", ("rm", label, str(case["motion"]), n))
+            out.ev(f"remesh/{'emb' if case['motion'] else 'ref'}/{rel}/{case['src'][0]}" + ("/scaled" if case["motion"] and len(case["motion"]) > 2 else ""), ("rm", label, str(case["motion"]), n))
     if not out.samples:
         out.samples.append({"family": "remesh", "src": case["src"], "motion": case["motion"], "node_counts": case["nn"]})
 
 
 def _tri_grid(name, motion):
-    spec = dict(G.base_specs("thorough"))[name]
-    g = G.build(dict(spec, motion=motion) if motion else spec)
-    return g, spec
+    spec = _spec_with(dict(G.base_specs("thorough"))[name], motion)
+    return G.build(spec), spec
 
 
 def _check_tri_children(g, h, parent, exact, out, what, detail):
     """h = refinement of triangle grid g with child -> parent array ``parent``."""
-    ext = max(1.0, float(np.abs(g.nodes).max()))
+    ext = _size(g)
     parent = np.asarray(parent)
     if parent.shape != (h.num_cells,) or parent.dtype.kind not in "iu" or parent.min() < 0 or parent.max() >= g.num_cells:
         return "cell map is not an array of parent indices, one per new cell"
@@ -350,13 +379,14 @@ def _run_refinetri(case, out):
     _quiet(g.compute_geometry)
     detail = {"grid": case["name"], "spec": spec, "motion": case["motion"]}
     try:
-        h, parent = _quiet(refinement.refine_triangle_grid, g)
+        with G.Pure(out, "refine_triangle_grid", [g], **detail) as pure:
+            h, parent = _quiet(refinement.refine_triangle_grid, g)
         _quiet(h.compute_geometry)
     except Exception as e:
         out.violate("refine_triangle_grid raised", error=repr(e), **detail)
         out.ev("VIOLATION")
         return
-    ok = _valid(h, G.domain_measure(spec), True, out, "refine_triangle_grid", **detail)
+    ok = _valid(h, G.domain_measure(spec), True, out, "refine_triangle_grid", **detail) and not pure.changed
     bad = None
     if h.num_cells != 4 * g.num_cells or h.dim != 2:
         bad = f"expected {4 * g.num_cells} cells, got {h.num_cells}"
@@ -367,7 +397,7 @@ def _run_refinetri(case, out):
     if bad or not ok:
         out.ev("VIOLATION")
     else:
-        out.ev(f"refinetri/{'emb' if case['motion'] else 'ref'}/{spec['kind']}", ("rt", case["name"], str(case["motion"])) if g.num_cells > 1 else None)
+        out.ev(f"refinetri/{'emb' if case['motion'] else 'ref'}/{spec['kind']}" + ("/scaled" if case["motion"] and len(case["motion"]) > 2 else ""), ("rt", case["name"], str(case["motion"])) if g.num_cells > 1 else None)
         out.samples.append({"family": "refinetri", "grid": case["name"], "motion": case["motion"], "cells": [g.num_cells, h.num_cells]})
 
 
@@ -426,7 +456,7 @@ def _run_structured(case, out):
             out.violate("structured_refinement: building the pair raised", error=repr(e), **detail)
             out.ev("VIOLATION")
             continue
-        ext = max(1.0, float(np.abs(gc.nodes).max()))
+        ext = _size(gc)
         exact = not m and k in (1, 2, 4)  # k = 3: thirds are not dyadic, use the tolerance test
         cn_f = _cell_nodes_list(gf)
         expected = []
@@ -441,7 +471,8 @@ def _run_structured(case, out):
             out.ev(f"skipped:not-nested/{kind}/{gc.dim}d")
             continue
         try:
-            M = _quiet(refinement.structured_refinement, gc, gf)
+            with G.Pure(out, "structured_refinement", [gc, gf], **detail) as pure:
+                M = _quiet(refinement.structured_refinement, gc, gf)
             Md = np.asarray(M.toarray())
         except Exception as e:
             out.violate("structured_refinement raised on a nested pair", error=repr(e), **detail)
@@ -449,8 +480,10 @@ def _run_structured(case, out):
             continue
         E = np.zeros((gf.num_cells, gc.num_cells))
         E[np.arange(gf.num_cells), expected] = 1
-        bad = None
-        if Md.shape != E.shape:
+        bad = "argument grid mutated (reported above)" if pure.changed else None
+        if bad:
+            pass
+        elif Md.shape != E.shape:
             bad = f"shape {Md.shape}, expected {E.shape}"
         elif not np.array_equal(Md.sum(axis=1), np.ones(gf.num_cells)):
             bad = "a fine cell is not mapped to exactly one coarse cell"
@@ -490,10 +523,20 @@ def _extrude_source(case):
 def _run_extrude(case, out):
     from porepy.grids.grid_extrusion import extrude_grid
 
+    sc = case.get("scale")
     for z in case["zs"]:
         g, label, measure, convex = _extrude_source(case)
         z = np.array(z, float)
-        detail = {"grid": label, "src": case["src"], "z": z}
+        if sc is not None:
+            # scale axis: the base grid and the layer vector multiplied by s
+            g.nodes = float(sc) * g.nodes
+            if g.dim == 0:
+                g.cell_centers = float(sc) * g.cell_centers
+            if measure is not None:
+                measure *= float(sc) ** g.dim
+            z = float(sc) * z
+            label += f"*{sc:g}"
+        detail = {"grid": label, "src": case["src"], "z": z, "scale": sc}
         if g.dim > 0:
             _quiet(g.compute_geometry)
         if measure is None:
@@ -505,14 +548,17 @@ def _run_extrude(case, out):
         old_cn = _cell_nodes_list(g) if g.dim > 0 else None
         old_nodes = g.nodes.copy()
         try:
-            h, cmap, fmap = _quiet(extrude_grid, g, z.copy())
+            # documented: "both the original and the new grid will have their geometry
+            # computed" -> the five geometry fields may be rewritten (round-off level)
+            with G.Pure(out, "extrude_grid", [g], allow=G.GEOM_FIELDS, **detail) as pure:
+                h, cmap, fmap = _quiet(extrude_grid, g, z.copy())
         except Exception as e:
             out.violate("extrude_grid raised", error=repr(e), **detail)
             out.ev("VIOLATION")
             continue
-        ok = _valid(h, measure * height, convex, out, "extrude_grid", **detail)
+        ok = _valid(h, measure * height, convex, out, "extrude_grid", **detail) and not pure.changed
         bad = None
-        ext = max(1.0, float(np.abs(h.nodes).max()))
+        ext = _size(h)
         nc = g.num_cells
         if h.dim != g.dim + 1 or h.num_cells != nc * nl:
             bad = f"expected dimension {g.dim + 1} with {nc * nl} cells, got {h.dim} with {h.num_cells}"
@@ -602,7 +648,7 @@ def _run_extrude(case, out):
             out.ev("VIOLATION")
         else:
             direction = "neg" if np.all(z <= 0) and np.any(z < 0) else "pos"
-            out.ev(f"extrude/{g.dim}d->{h.dim}d/{direction}/L{min(nl, 2)}{'+' if nl > 2 else ''}/{case['src'][0]}", ("ex", label, tuple(z.tolist())) if (nc > 1 or nl > 1) else None)
+            out.ev(f"extrude/{g.dim}d->{h.dim}d/{direction}/L{min(nl, 2)}{'+' if nl > 2 else ''}/{case['src'][0]}" + ("" if sc is None else "/scaled"), ("ex", label, tuple(z.tolist())) if (nc > 1 or nl > 1) else None)
     if not out.samples:
         out.samples.append({"family": "extrude", "src": case["src"], "layer_vectors": case["zs"]})
 
